@@ -21,7 +21,8 @@ package tree
 //@ opaque pred idxOK(n *node) = len(n.indexes) > 0 ==> (len(n.children) >= 5 && n.children[0].segment.Type == 0 &&
 //@      (forall b byte :: in(b, n.indexes) ==> 0 <= n.indexes[b] && n.indexes[b] < len(n.children) && n.children[n.indexes[b]].segment.Type == 0))
 // a node with handlers has the automatic OPTIONS and 405 ones; a TRACE handler is never registered by hand on a tree with WithTrace
-//@ opaque pred hmOK(n *node) = (len(n.handlers) > 0 ==> in("", n.handlers) && in("OPTIONS", n.handlers)) && (n.root != nil && n.root.hasTrace ==> !in("TRACE", n.handlers))
+//@ opaque pred hmOK(n *node) = (len(n.handlers) > 0 ==> in("", n.handlers) && in("OPTIONS", n.handlers)) && (n.root != nil && n.root.hasTrace ==> !in("TRACE", n.handlers)) &&
+//@      (in("HEAD", n.handlers) <==> in("GET", n.handlers))
 // only the root of a tree has no parent, and it always has handlers (OPTIONS * and its 405)
 //@ opaque pred parentOK(n *node) = (n.parent == nil ==> len(n.handlers) > 0) && (n.parent != nil ==> allocated(n.parent) && n.parent.root == n.root)
 //@ opaque pred nodeSafe(n *node) = n.root != nil && allocated(n.root) && allocated(n.segment) && segOK(n.segment) && kidsOK(n) && sortedKinds(n) && idxOK(n) && hmOK(n) && parentOK(n)
@@ -64,11 +65,11 @@ package tree
 //@   requires [C06] lock: heldR(n)
 //@   requires n != nil && allocated(n) && ctx != nil && allSafe()
 //@   ensures [C01,C05] found: result != nil ==> allocated(result) && len(result.handlers) > 0 && ctx.Path == "" && result.root == n.root
-//@   ensures [C01] restore-path: result == nil ==> ctx.Path == old(ctx.Path)
+//@   ensures [C01,C02] restore-path: result == nil ==> ctx.Path == old(ctx.Path)
 //@   ensures [C01] no-leftover: result == nil ==> (forall x string :: in(x, ctx.params) ==> old(in(x, ctx.params)) && ctx.params[x] == old(ctx.params[x]))
 //@   inv 1 [C05] idx: 0 <= i
-//@   inv 1 [C01] path: ctx.Path == old(ctx.Path)
-//@   inv 1 [C01] no-leftover: forall x string :: in(x, ctx.params) ==> old(in(x, ctx.params)) && ctx.params[x] == old(ctx.params[x])
+//@   inv 1 [C01,C02] path: ctx.Path == old(ctx.Path)
+//@   inv 1 [C01,C02] no-leftover: forall x string :: in(x, ctx.params) ==> old(in(x, ctx.params)) && ctx.params[x] == old(ctx.params[x])
 //
 //@ fn node.find
 //@   requires [C06] lock: heldR(n)
@@ -217,16 +218,28 @@ package tree
 //@   requires n != nil && allocated(n) && allSafe() && sepOK()
 //@   ensures [C03,C05] safe: allSafe() && sepOK()
 //@   inv 1 [C05] bound: -1 <= rangeindex && rangeindex < len(n.children) && allSafe() && sepOK()
+//@   inv 1 [C03] only-covered: forall k int :: 0 <= k && k < len(dels) ==> hasPrefix(dels[k], prefix)
 //@   inv 2 [C05] bound2: -1 <= rangeindex && rangeindex < len(dels)
+//@   inv 2 [C03] only-covered: forall k int :: 0 <= k && k < len(dels) ==> hasPrefix(dels[k], prefix)
+//@   atcall tree.removeNodes [C03] only-covered: arg0 == n.children && hasPrefix(arg1, prefix)
 //@   inv 2 [C03,C05] kids: allSafeExcept(n) && sepOK() && kidsOK(n) && sortedKinds(n) && n.root != nil && allocated(n.root) && segOK(n.segment) && hmOK(n) && parentOK(n)
 //
 //@ fn Tree.Clean
 //@   requires treeOK(tree) && allSafe() && sepOK() && lockFree(tree)
 //@   ensures [C03,C05] safe: allSafe() && sepOK()
 //
+// Remove: the automatically managed entries follow the registered ones (C08): HEAD goes exactly when GET goes,
+// OPTIONS and the 405 entry are untouched by the per-method loop (they go together, once nothing else is left)
 //@ fn Tree.Remove
 //@   requires treeOK(tree) && allSafe() && sepOK() && lockFree(tree)
 //@   ensures [C03,C05] safe: allSafe() && sepOK()
+//@   inv 1 [C08] bound: -1 <= rangeindex && rangeindex < len(methods) && callresult("tree.Tree.Find", 1, 0).handlers == old(callresult("tree.Tree.Find", 1, 0).handlers)
+//@   inv 1 [C08] head-follows-get: in("HEAD", callresult("tree.Tree.Find", 1, 0).handlers) <==> in("GET", callresult("tree.Tree.Find", 1, 0).handlers)
+//@   inv 1 [C08] automatic-kept: (in("OPTIONS", callresult("tree.Tree.Find", 1, 0).handlers) <==> old(in("OPTIONS", callresult("tree.Tree.Find", 1, 0).handlers))) &&
+//@        (in("", callresult("tree.Tree.Find", 1, 0).handlers) <==> old(in("", callresult("tree.Tree.Find", 1, 0).handlers)))
+//@   inv 1 [C08] only-shrinks: forall k string :: in(k, callresult("tree.Tree.Find", 1, 0).handlers) ==> old(in(k, callresult("tree.Tree.Find", 1, 0).handlers))
+//@   inv 1 [C08] removed-so-far: forall i int :: 0 <= i && i <= rangeindex && methods[i] != "OPTIONS" && methods[i] != "HEAD" && methods[i] != "" ==>
+//@        !in(methods[i], callresult("tree.Tree.Find", 1, 0).handlers)
 //
 //@ fn Tree.Add
 //@   requires treeOK(tree) && allSafe() && sepOK() && lockFree(tree)
@@ -419,6 +432,8 @@ package tree
 //@   inv 2 frame: unchanged("strings.Builder.text") && tree.locker == old(tree.locker)
 //@   inv 3 [C05] bound: -1 <= rangeindex && rangeindex < len(nodes) && ofTree(nodes, tree)
 //@   inv 3 frame: unchanged("strings.Builder.text", buf.Builder) && tree.locker == old(tree.locker)
+//@   atcall errwrap.StringBuilder.WString [C10] emits-chain-only: arg0 == buf && (arg1 == nodes[rangeindex + 1].segment.Value ||
+//@        (in(nodes[rangeindex + 1].segment.Name, ps) && arg1 == ps[nodes[rangeindex + 1].segment.Name]) || arg1 == nodes[rangeindex + 1].segment.Suffix)
 //@   inv 3 [C10] so-far: buf.Builder.text == old(buf.Builder.text) + instN(nodes, rangeindex + 1, ps)
 //@   inv 3 [C10] validated: forall k int :: 0 <= k && k <= rangeindex && nodes[k].segment.Type != 0 ==>
 //@        in(nodes[k].segment.Name, ps) && (kindOK(nodes[k].segment) ==> accepts(nodes[k].segment, ps[nodes[k].segment.Name]))
@@ -431,9 +446,14 @@ package tree
 //@   requires [C06] lock: theldR(tree)
 //@   requires treeOK(tree) && allSafe()
 //
+// only a live route (a node that has handlers) is ever reported as the ambiguous one (C17)
 //@ fn node.checkAmbiguous
 //@   requires [C06] lock: heldR(n)
 //@   requires n != nil && allocated(n) && allSafe() && rootOK(n)
+//@   ensures [C17] only-live-routes: result0 != nil ==> allocated(result0) && len(result0.handlers) > 0
+//@   ensures [C17] error-means-none: result2 != nil ==> result0 == nil
+//@   inv 1 [C05] bound: -1 <= rangeindex && rangeindex < len(n.children)
+//@   inv 1 [C05] safe: allSafe()
 
 // ---------------------------------------------------------------- middleware application (C09)
 
